@@ -14,6 +14,8 @@
 ;; type []string
 (declare-fun strJoin (Seq_String String) String)
 (assert (forall ((sep String)) (! (= (strJoin empty_String sep) "") :pattern ((strJoin empty_String sep)))))
+; strings.Fields(s): the maximal runs of non-space characters of s, in order (no element holds a line break: A-FIELDS)
+(declare-fun strFields (String) Seq_String)
 ; a JSON string literal is its content between two double quotes
 (declare-fun jsonInner (String) String)
 (assert (forall ((s String)) (! (= (jsonQuote s) (str.++ """" (jsonInner s) """")) :pattern ((jsonQuote s)))))
